@@ -355,3 +355,467 @@ func runC02TotalOrder(c *Ctx) {
 		c.bad(construct, fn.Pos(), "only file, line and column are compared: diagnostics of different entries of a mapping that land on one position come out in map order")
 	}
 }
+
+func init() {
+	register(&Rule{ID: "C17.SCANERR", Min: 1, Doc: "an error raised by the scanner while it reads ahead is reported at the column of the character it could not read", Run: runC17ScanErr})
+	register(&Rule{ID: "C17.BOM", Min: 1, Doc: "a byte order mark at the start of a glob pattern is not dropped by the scanner", Run: runC17Bom})
+	register(&Rule{ID: "C13.ALLFOREIGN", Min: 2, Doc: "every key that does not belong to the kind of job is reported, not only the last one seen", Run: runC13AllForeign})
+	register(&Rule{ID: "C20.LINESTART", Min: 1, Doc: "an issue printed by pyflakes is recognised only at the beginning of a line", Run: runC20LineStart})
+	register(&Rule{ID: "C12.UNDEFARGS", Min: 1, Doc: "the arguments of a call to an undefined function are still checked", Run: runC12UndefArgs})
+	register(&Rule{ID: "C15.NULLITEM", Min: 1, Doc: "a null item of an ignore list is rejected instead of being compiled as the empty pattern", Run: runC15NullItem})
+}
+
+func runC17ScanErr(c *Ctx) {
+	p := c.P
+	initFn := p.Method("globValidator", "init")
+	if initFn == nil {
+		c.anchorMissing("(*globValidator).init")
+		return
+	}
+	var cb *ssa.Function
+	for _, fn := range p.Funcs {
+		if fn.Parent() == initFn {
+			cb = fn
+		}
+	}
+	if cb == nil {
+		c.anchorMissing("scanner error callback in (*globValidator).init")
+		return
+	}
+	construct := "(*globValidator).init|column of a scanner error"
+	if len(findCalls(cb, "(*globValidator).error")) > 0 {
+		c.bad(construct, cb.Pos(), "the callback reports through (*globValidator).error, which subtracts one column because its callers have already consumed the offending character; the scanner raises its error while reading ahead, so NUL or invalid UTF-8 is reported one column too early (column 0 at the start)")
+	} else {
+		c.ok(construct, cb.Pos(), "the callback takes the scanner position as it is")
+	}
+}
+
+func runC17Bom(c *Ctx) {
+	p := c.P
+	fn := p.Method("globValidator", "init")
+	if fn == nil {
+		c.anchorMissing("(*globValidator).init")
+		return
+	}
+	guard := false
+	for _, call := range findCalls(fn, "strings.HasPrefix") {
+		if s, ok := constString(call.Common().Args[1]); ok && s == "\uFEFF" {
+			guard = true
+		}
+	}
+	construct := "(*globValidator).init|byte order mark at the start of the pattern"
+	if guard {
+		c.ok(construct, fn.Pos(), "a leading U+FEFF is replaced before the scanner sees the pattern")
+	} else {
+		c.bad(construct, fn.Pos(), "text/scanner skips a leading U+FEFF: `\\uFEFF?` is reported as `?` after a special character although the same text is accepted when the mark is anywhere else")
+	}
+}
+
+func runC13AllForeign(c *Ctx) {
+	p := c.P
+	fn := p.Method("parser", "parseJob")
+	if fn == nil {
+		c.anchorMissing("(*parser).parseJob")
+		return
+	}
+	// the two reports about keys of the wrong kind of job
+	n := 0
+	var stepsOnlyLoop map[*ssa.BasicBlock]bool
+	for _, call := range findCalls(fn, "(*parser).errorfAt") {
+		s, ok := constString(call.Common().Args[2])
+		if !ok {
+			continue
+		}
+		which := ""
+		switch {
+		case strings.Contains(s, "when a reusable workflow is called"):
+			which = "key not available in a reusable workflow call"
+		case strings.Contains(s, "is only available for a reusable workflow call"):
+			which = "key only available in a reusable workflow call"
+		default:
+			continue
+		}
+		n++
+		construct := "(*parser).parseJob|" + which
+		if blockInCycle(call.Block()) {
+			c.ok(construct, call.Pos(), "reported in a loop over all such keys")
+			if strings.HasPrefix(which, "key not") {
+				for _, h := range loopHeaders(fn) {
+					if b := naturalLoop(h); b[call.Block()] {
+						stepsOnlyLoop = b
+					}
+				}
+			}
+		} else {
+			c.bad(construct, call.Pos(), "reported once, for the key remembered last: with `runs-on` and `steps` in a job that has `uses`, only one of them is reported")
+		}
+	}
+	if n == 0 {
+		c.anchorMissing("reports about keys of the wrong kind of job in (*parser).parseJob")
+		return
+	}
+	// every key other than the ones GitHub allows in a call job is remembered for the first report
+	allowed := map[string]bool{"name": true, "uses": true, "with": true, "secrets": true, "needs": true, "if": true, "permissions": true, "strategy": true, "concurrency": true}
+	var missing []string
+	keys := 0
+	for _, b := range fn.Blocks {
+		ifi, ok := b.Instrs[len(b.Instrs)-1].(*ssa.If)
+		if !ok {
+			continue
+		}
+		bo, ok := ifi.Cond.(*ssa.BinOp)
+		if !ok || bo.Op != token.EQL {
+			continue
+		}
+		k, ok := constString(bo.Y)
+		if !ok {
+			continue
+		}
+		if f, _ := fieldLoad(bo.X); f != "workflowKeyVal.id" {
+			if _, isField := bo.X.(*ssa.Field); !isField {
+				continue
+			}
+		}
+		keys++
+		if allowed[k] {
+			continue
+		}
+		// the case body (up to the next key comparison or the loop latch) appends a key to a []*String
+		appends := false
+		stop := map[*ssa.BasicBlock]bool{b.Succs[1]: true}
+		for blk := range reachableBlocks([]*ssa.BasicBlock{b.Succs[0]}, stop) {
+			if len(blk.Instrs) > 0 {
+				if i2, ok := blk.Instrs[len(blk.Instrs)-1].(*ssa.If); ok {
+					if b2, ok := i2.Cond.(*ssa.BinOp); ok && b2.Op == token.EQL {
+						if _, isKey := constString(b2.Y); isKey {
+							continue
+						}
+					}
+				}
+			}
+			for _, in := range blk.Instrs {
+				if call, ok := in.(*ssa.Call); ok {
+					if bi, ok := call.Call.Value.(*ssa.Builtin); ok && bi.Name() == "append" && typeStr(call.Type()) == "[]*String" {
+						appends = true
+					}
+				}
+			}
+		}
+		if !appends {
+			missing = append(missing, k)
+		}
+	}
+	_ = stepsOnlyLoop
+	construct := "(*parser).parseJob|keys remembered as not available in a call job"
+	switch {
+	case keys < 10:
+		c.anchorMissing("key dispatch of (*parser).parseJob")
+	case len(missing) == 0:
+		c.ok(construct, fn.Pos(), "every job key outside name/uses/with/secrets/needs/if/permissions/strategy/concurrency is remembered")
+	default:
+		c.bad(construct, fn.Pos(), "the key(s) "+strings.Join(missing, ", ")+" are not allowed in a job that calls a reusable workflow but are not remembered for the report")
+	}
+}
+
+func runC20LineStart(c *Ctx) {
+	p := c.P
+	fn := p.Method("RulePyflakes", "parseNextError")
+	if fn == nil {
+		c.anchorMissing("(*RulePyflakes).parseNextError")
+		return
+	}
+	unanchored := false
+	anchored := false
+	eachInstr(fn, func(_ *ssa.BasicBlock, _ int, in ssa.Instruction) {
+		call, ok := in.(*ssa.Call)
+		if !ok {
+			return
+		}
+		name := calleeFullName(&call.Call)
+		if name != "bytes.Index" && name != "bytes.HasPrefix" && name != "bytes.Contains" && name != "bytes.Cut" {
+			return
+		}
+		needle := ""
+		if cv, ok := call.Call.Args[1].(*ssa.Convert); ok {
+			needle, _ = constString(cv.X)
+		}
+		switch {
+		case name == "bytes.HasPrefix" && needle == "<stdin>:":
+			anchored = true
+		case needle == "\n<stdin>:":
+			anchored = true
+		case needle == "<stdin>:":
+			unanchored = true
+		}
+	})
+	construct := "(*RulePyflakes).parseNextError|start of an issue"
+	switch {
+	case unanchored:
+		c.bad(construct, fn.Pos(), "`<stdin>:` is searched anywhere in the output: pyflakes echoes the source line under a syntax error, so a script line containing `<stdin>:` turns one issue into two diagnostics")
+	case anchored:
+		c.ok(construct, fn.Pos(), "`<stdin>:` is only recognised at the start of the output or after a line break")
+	default:
+		c.anchorMissing("search for <stdin>: in (*RulePyflakes).parseNextError")
+	}
+}
+
+func runC12UndefArgs(c *Ctx) {
+	p := c.P
+	fn := p.Method("ExprSemanticsChecker", "checkFuncCall")
+	if fn == nil {
+		c.anchorMissing("(*ExprSemanticsChecker).checkFuncCall")
+		return
+	}
+	var undef ssa.CallInstruction
+	for _, call := range findCalls(fn, "(*ExprSemanticsChecker).errorf") {
+		if s, ok := constString(call.Common().Args[2]); ok && strings.HasPrefix(s, "undefined function") {
+			undef = call
+		}
+	}
+	if undef == nil {
+		c.anchorMissing("report of an undefined function in checkFuncCall")
+		return
+	}
+	checked := false
+	for _, call := range findCalls(fn, "(*ExprSemanticsChecker).check") {
+		if instrReachableAfter(undef, call) {
+			// and it is on the undefined path only: the report's block dominates it
+			if undef.Block() == call.Block() || undef.Block().Dominates(call.Block()) {
+				checked = true
+			}
+		}
+	}
+	construct := "(*ExprSemanticsChecker).checkFuncCall|arguments of an undefined function"
+	if checked {
+		c.ok(construct, undef.Pos(), "the arguments are checked after the undefined function was reported")
+	} else {
+		c.bad(construct, undef.Pos(), "the function returns right after reporting the undefined function: `formatt('{0}', secrets.FOO)` at a key where secrets is not allowed, or `unknownfn(github.event.issue.title)` in a script, lose the diagnostics of the arguments")
+	}
+}
+
+func runC15NullItem(c *Ctx) {
+	p := c.P
+	fn := p.Method("IgnorePatterns", "UnmarshalYAML")
+	if fn == nil {
+		c.anchorMissing("(*IgnorePatterns).UnmarshalYAML")
+		return
+	}
+	calls := findCalls(fn, "regexp.Compile")
+	if len(calls) == 0 {
+		c.anchorMissing("regexp.Compile in (*IgnorePatterns).UnmarshalYAML")
+		return
+	}
+	// a comparison of the node's tag with "!!null" whose outcome can keep the compile from running
+	tested := false
+	for _, b := range fn.Blocks {
+		ifi, ok := b.Instrs[len(b.Instrs)-1].(*ssa.If)
+		if !ok {
+			continue
+		}
+		bo, ok := ifi.Cond.(*ssa.BinOp)
+		if !ok {
+			continue
+		}
+		f, _ := fieldLoad(bo.X)
+		s, isC := constString(bo.Y)
+		if f != "yaml.Node.Tag" || !isC || s != "!!null" {
+			continue
+		}
+		nullSucc := b.Succs[0]
+		if bo.Op == token.NEQ {
+			nullSucc = b.Succs[1]
+		}
+		if !reachableBlocks([]*ssa.BasicBlock{nullSucc}, nil)[calls[0].Block()] || blockInCycle(calls[0].Block()) && returnsBefore(nullSucc, calls[0].Block()) {
+			tested = true
+		}
+	}
+	construct := "(*IgnorePatterns).UnmarshalYAML|null item"
+	if tested {
+		c.ok(construct, calls[0].Pos(), "an item tagged !!null is rejected")
+	} else {
+		c.bad(construct, calls[0].Pos(), "an empty item (`-`) is a scalar whose text is empty: it compiles to the empty pattern, which matches every message, so every diagnostic of the matching files is dropped")
+	}
+}
+
+// returnsBefore: from block b a return is reached without passing through target.
+func returnsBefore(b, target *ssa.BasicBlock) bool {
+	for blk := range reachableBlocks([]*ssa.BasicBlock{b}, map[*ssa.BasicBlock]bool{target: true}) {
+		if _, ok := blk.Instrs[len(blk.Instrs)-1].(*ssa.Return); ok {
+			return true
+		}
+	}
+	return false
+}
+
+func init() {
+	register(&Rule{ID: "C14.NULLDEFAULT", Min: 1, Doc: "a null `default:` of a workflow_call input is no default on the AST path as on the re-parse path", Run: runC14NullDefault})
+	register(&Rule{ID: "C14.POPCASE", Min: 2, Doc: "the bundled popular-actions data set is consulted case-insensitively for owner and repository", Run: runC14PopCase})
+	register(&Rule{ID: "C16.SNIPBOM", Min: 1, Doc: "the snippet line does not contain the byte order mark the YAML parser does not count", Run: runC16SnipBom})
+	register(&Rule{ID: "C16.ESC", Min: 1, Doc: "echoed library errors have escape characters replaced, which the problem matcher would strip from the end of the message", Run: runC16Esc})
+	register(&Rule{ID: "C16.TABPAD", Min: 1, Doc: "the padding before the caret repeats the tab characters of the source line", Run: runC16TabPad})
+}
+
+func runC14NullDefault(c *Ctx) {
+	p := c.P
+	n := 0
+	for _, fn := range p.Funcs {
+		if !strings.HasSuffix(p.File(fn.Pos()), "/parse.go") {
+			continue
+		}
+		eachInstr(fn, func(b *ssa.BasicBlock, _ int, in ssa.Instruction) {
+			st, ok := in.(*ssa.Store)
+			if !ok {
+				return
+			}
+			fa, ok := st.Addr.(*ssa.FieldAddr)
+			if !ok || fieldAddrName(fa) != "WorkflowCallEventInput.Default" {
+				return
+			}
+			n++
+			construct := fmt.Sprintf("%s|default of a workflow_call input#%d", FuncName(fn), n)
+			guarded := false
+			for ifi, outcome := range controllingConds(b) {
+				if call, ok := ifi.Cond.(*ssa.Call); ok && !outcome {
+					if f := staticCallee(&call.Call); f != nil && FuncName(f) == "isNull" {
+						guarded = true
+					}
+				}
+			}
+			if guarded {
+				c.ok(construct, st.Pos(), "set only when the node is not null")
+			} else {
+				c.bad(construct, st.Pos(), "a null `default:` becomes a non-nil String, so WriteWorkflowCallEvent takes the input as having a default (not required) while the re-parse of the file (nil *string) takes it as required: the caller's \"input is required\" diagnostic depends on which path filled the cache")
+			}
+		})
+	}
+	if n == 0 {
+		c.anchorMissing("store to WorkflowCallEventInput.Default in parse.go")
+	}
+}
+
+func runC14PopCase(c *Ctx) {
+	p := c.P
+	n := 0
+	for _, fn := range p.Funcs {
+		eachInstr(fn, func(_ *ssa.BasicBlock, _ int, in ssa.Instruction) {
+			lk, ok := in.(*ssa.Lookup)
+			if !ok {
+				return
+			}
+			ld, ok := lk.X.(*ssa.UnOp)
+			if !ok {
+				return
+			}
+			g, ok := ld.X.(*ssa.Global)
+			if !ok || g.Name() != "PopularActions" {
+				return
+			}
+			n++
+			construct := fmt.Sprintf("%s|look-up in PopularActions#%d", FuncName(fn), n)
+			// allowed: inside a function that also compares the names with strings.EqualFold (exact hit first, then the
+			// case-insensitive search), or with a key taken from the map itself
+			if len(findCalls(fn, "strings.EqualFold")) > 0 {
+				c.ok(construct, lk.Pos(), "the function falls back to a comparison with strings.EqualFold")
+			} else {
+				c.bad(construct, lk.Pos(), "the data set is looked up with the spec as written: `uses: Actions/Cache@v4` (owner and repository are case-insensitive) is not found, so none of its inputs and outputs are checked")
+			}
+		})
+	}
+	if n == 0 {
+		c.anchorMissing("look-up in PopularActions")
+	}
+}
+
+func runC16SnipBom(c *Ctx) {
+	p := c.P
+	fn := p.Method("Error", "getLine")
+	if fn == nil {
+		c.anchorMissing("(*Error).getLine")
+		return
+	}
+	trims := false
+	for _, call := range findCalls(fn, "strings.TrimPrefix") {
+		if s, ok := constString(call.Common().Args[1]); ok && s == "\uFEFF" {
+			trims = true
+		}
+	}
+	construct := "(*Error).getLine|byte order mark on the first line"
+	if trims {
+		c.ok(construct, fn.Pos(), "removed before the column is applied to the line")
+	} else {
+		c.bad(construct, fn.Pos(), "the YAML parser does not count a byte order mark at the start of the file as a column, the renderer does: every caret on line 1 is one cell too far left")
+	}
+}
+
+func runC16Esc(c *Ctx) {
+	p := c.P
+	fn := p.Func("replaceLineBreaks")
+	if fn == nil {
+		c.anchorMissing("replaceLineBreaks")
+		return
+	}
+	covered := false
+	init := p.SPkg.Func("init")
+	for _, f := range append([]*ssa.Function{init}, p.Funcs...) {
+		if f == nil {
+			continue
+		}
+		for _, call := range findCalls(f, "strings.NewReplacer") {
+			args, ok := variadicArgs(call.Common().Args[0])
+			if !ok {
+				continue
+			}
+			has := map[string]bool{}
+			for i := 0; i+1 < len(args); i += 2 {
+				if s, ok := constString(args[i]); ok {
+					has[s] = true
+				}
+			}
+			if has["\n"] && has["\r"] && has["\x1b"] {
+				covered = true
+			}
+		}
+	}
+	construct := "replaceLineBreaks|escape character"
+	if covered {
+		c.ok(construct, fn.Pos(), "the replacer that removes line breaks also replaces ESC")
+	} else {
+		c.bad(construct, fn.Pos(), "an ESC echoed by a library error (`cron: \"@daily\\e[0m\"`) stays in the message; the problem matcher strips colour sequences from the end of the line, so the message it parses back differs")
+	}
+}
+
+func runC16TabPad(c *Ctx) {
+	p := c.P
+	fn := p.Method("Error", "getIndicator")
+	if fn == nil {
+		c.anchorMissing("(*Error).getIndicator")
+		return
+	}
+	// a comparison of a character of the line with '\t' that leads to writing a tab
+	tab := false
+	eachInstr(fn, func(b *ssa.BasicBlock, _ int, in ssa.Instruction) {
+		bo, ok := in.(*ssa.BinOp)
+		if !ok || (bo.Op != token.EQL && bo.Op != token.NEQ) {
+			return
+		}
+		if k, ok := constInt(bo.Y); !ok || k != '\t' {
+			return
+		}
+		for _, call := range findCalls(fn, "(*strings.Builder).WriteByte") {
+			if k, ok := constInt(call.Common().Args[1]); ok && k == '\t' {
+				tab = true
+			}
+		}
+		for _, call := range findCalls(fn, "(*strings.Builder).WriteRune") {
+			if k, ok := constInt(call.Common().Args[1]); ok && k == '\t' {
+				tab = true
+			}
+		}
+	})
+	construct := "(*Error).getIndicator|tab characters before the caret"
+	if tab {
+		c.ok(construct, fn.Pos(), "a tab of the source line is repeated in the padding, so the caret is aligned for every tab width")
+	} else {
+		c.bad(construct, fn.Pos(), "the padding is a number of spaces computed with runewidth, which gives a tab the width 0, while the source line is printed with the raw tab: the caret is left of the token for every tab width")
+	}
+}
